@@ -10,6 +10,12 @@ def main():
     res = gen.regenerate(registry.all_programs(), seed=0, n_validate=3, lean_check=False)
     for k, v in res.failed.items():
         print(f"[setup] trace failed: {k}: {v[:200]}")
+    try:  # C19: the dispatch tables (lean/Tsv/Gen/Tables.lean) are generated, not committed
+        from . import tables
+        F, changed = tables.generate()
+        print(f"[setup] dispatch tables regenerated (changed={changed}); extraction problems: {F.errors}")
+    except Exception as e:  # noqa - reported by ./check C19, not by setup
+        print(f"[setup] dispatch tables: {type(e).__name__}: {e}")
     mods = sorted('Tsv.Proofs.' + os.path.basename(p)[:-5] for p in glob.glob(os.path.join(core.LEAN, 'Tsv', 'Proofs', '*.lean')))
     mods += sorted('Tsv.GenF.' + os.path.basename(p)[:-5] for p in glob.glob(os.path.join(core.LEAN, 'Tsv', 'GenF', '*.lean')))
     ok, log, errs, dt = core.lake_build(mods, timeout=7200)
